@@ -164,6 +164,19 @@ func (cr *caseRun) recordFiles() {
 	}
 	own := map[int]map[int]bool{}
 	for _, e := range ents {
+		if os.Getenv("VERIF_FILES_DEBUG") != "" {
+			fi, _ := e.Info()
+			fmt.Fprintf(os.Stderr, "FILE[%d] %s %d\n", len(cr.events), e.Name(), fi.Size())
+		}
+		if strings.HasSuffix(e.Name(), ".bad") {
+			// go-diskqueue renames a file it could not read to *.bad and never removes it (known
+			// finding K10: a spurious EOF when the reader has caught up at the moment the writer
+			// rolls the file).  Only the scenario that replays K10 counts these files.
+			cr.tag("diskqueue-bad-file-seen")
+			if !cr.countBad {
+				continue
+			}
+		}
 		i := strings.Index(e.Name(), ".diskqueue.")
 		if i < 0 {
 			continue
